@@ -275,7 +275,13 @@ POOL = [
   ["U", "A", "A", "U", "P", "A"], ["P", "A", "A", "U", "C", "A"], ["C", "A", "A", "C", "F5", "A"],
   ["K", "A", "A", "U", "A", "K"], ["F2", "U", "A", "U", "A", "A"], ["U", "A", "A", "P", "A", "A"],
 ]
-OPS = ["add", "sub", "mul", "scale", "scale-stream", "square", "stream-times-sum"]
+OPS = ["add", "sub", "mul", "scale", "scale-stream", "square", "stream-times-sum", "div"]
+# quotients: dividends / divisors whose lowest term is delayed (the quotient stays causal when the
+# dividend is delayed at least as much: the common delay cancels) and one-term divisors
+DIVIDENDS = [["A", "U", "C", "U", "A", "A"], ["A", "P", "C", "U", "A", "A"], ["A", "A", "U", "U", "C", "A"],
+             ["A", "C", "U", "U", "A", "P"]]
+DIVISORS = [["A", "P", "A", "U", "A", "A"], ["A", "A", "F5", "U", "A", "A"], ["A", "K", "P", "U", "A", "A"],
+            ["A", "C", "A", "U", "A", "A"], ["A", "P", "A", "U", "C", "A"], ["A", "U", "A", "P", "A", "A"]]
 
 
 def sadd(a, b):
@@ -364,8 +370,12 @@ def gen_algebra(run):
       if op in ("scale", "scale-stream", "square", "stream-times-sum"):
         yield (op, f, None)
         continue
-      for g in POOL:
+      for g in POOL + (DIVISORS if op == "div" else []):
         yield (op, f, g)
+    if op == "div":
+      for f in DIVIDENDS:
+        for g in POOL + DIVISORS:
+          yield (op, f, g)
 
 
 def run_algebra(case):
@@ -411,6 +421,16 @@ def run_algebra(case):
     elif op == "mul":
       num, den = pmul(fn, gn), pmul(fd, gd)
       h = f * g
+    elif op == "div":
+      num, den = pmul(fn, gd), pmul(fd, gn)
+      k0 = min(den)
+      if min(num) < k0:
+        return R(None, False, "skipped-non-causal-quotient")
+      if any(v == 0 for v in den[k0] if v is not None):
+        return R(None, False, "skipped-zero-leading-coefficient")
+      num = {k - k0: v for k, v in num.items()}
+      den = {k - k0: v for k, v in den.items()}
+      h = f / g
     elif op == "scale":
       num, den = {k: [None if v is None else 3 * v for v in s] for k, s in fn.items()}, fd
       h = 3 * f
@@ -768,7 +788,82 @@ def run_control(case):
   return R(None, True, (expr, where))
 
 
+# ------------------------------------------- constructor arguments given bare
+NUM_ARGS = ["stream", "control", "hub", "number", "list-stream", "dict-stream", "filter"]
+DEN_ARGS = ["none", "number", "list", "list-stream", "dict-stream", "stream"]
+
+
+def gen_constructor(run):
+  for cls in ("ZFilter", "LinearFilter"):
+    for na in NUM_ARGS:
+      for da in DEN_ARGS:
+        for route in ("positional", "keyword"):
+          yield (cls, na, da, route)
+
+
+def run_constructor(case):
+  """ZFilter(numerator, denominator) with the documented argument forms, a coefficient Stream given bare
+  (a lone Stream / ControlStream / hub stands for the coefficient b0[n] or a0[n]) or inside a list / dict."""
+  cls_name, na, da, route = case
+  from audiolazy import ControlStream, LinearFilter
+  cls = {"ZFilter": ZFilter, "LinearFilter": LinearFilter}[cls_name]
+  T = NX + 2
+  x = syms("x", NX)
+  sources = []
+  def stream(p):
+    src = CountingSource(itertools.cycle([Q(PR[p]), Q(PR[p] + 1)]), name="p%d" % p)
+    sources.append(src)
+    return Stream(src), [F(PR[p] + (n % 2)) for n in range(T)]
+  one = [F(1)] * T
+  try:
+    if na == "stream":
+      a, seq = stream(0); num = {0: seq}
+    elif na == "control":
+      a, num = ControlStream(Q(7)), {0: [F(7)] * T}
+    elif na == "hub":
+      st, seq = stream(0); a, num = _thub(st, 1), {0: seq}
+    elif na == "number":
+      a, num = 3, {0: [F(3)] * T}
+    elif na == "list-stream":
+      st, seq = stream(0); a, num = [2, st], {0: [F(2)] * T, 1: seq}
+    elif na == "dict-stream":
+      st, seq = stream(0); a, num = {1: st}, {1: seq}
+    else:
+      a, num = ZFilter([1, 2]), {0: one, 1: [F(2)] * T}
+    if da == "none":
+      b, den = None, {0: one}
+    elif da == "number":
+      b, den = 2, {0: [F(2)] * T}
+    elif da == "list":
+      b, den = [1, -3], {0: one, 1: [F(-3)] * T}
+    elif da == "list-stream":
+      st, seq = stream(3); b, den = [1, st], {0: one, 1: seq}
+    elif da == "dict-stream":
+      st, seq = stream(3); b, den = {0: 2, 2: st}, {0: [F(2)] * T, 2: seq}
+    else:
+      st, seq = stream(3); b, den = st, {0: seq}
+    if na == "filter" and da != "none":
+      if route == "keyword":
+        return R(None, False, "filter-cast-with-denominator")
+      # type cast with a denominator: numerator filter / denominator (documented as a division)
+      return R(None, False, "filter-cast-with-denominator")
+    if route == "positional":
+      filt = cls(a) if b is None else cls(a, b)
+    else:
+      filt = cls(numerator=a) if b is None else cls(numerator=a, denominator=b)
+  except Exception as exc:
+    return bad("tv-constructor:build:" + type(exc).__name__, "%s(%s numerator, %s denominator) raised" % (cls_name, na, da),
+               None, str(exc)[:200], True)
+  exp = tv_apply(num, den, x)
+  v = check_run(filt, sources, exp, x, "tv-constructor", True)
+  if v is not None:
+    return v
+  return R(None, bool(sources) or na == "control", (na, da))
+
+
 KINDS = OrderedDict([
+  ("constructor", Kind(gen_constructor, run_constructor, chunk=8,
+                       rule="constructor x numerator form (bare Stream / ControlStream / hub / number / list / dict / filter) x denominator form x positional / keyword")),
   ("shapes", Kind(gen_shapes, run_shape, chunk=300,
                   rule="coefficient kind placements x construction route; non-trivial: >=1 Stream coefficient")),
   ("sparse", Kind(gen_sparse, run_sparse, chunk=8, rule="stream coefficients on delays 0..2 and 9..12, 30 input samples")),
